@@ -450,6 +450,9 @@ fn solve_generic_multi(
                 [1.0; 2],
                 &payoffs,
             );
+            // the cached payoffs and the unexpanded frontier belong to this iteration only
+            payoffs.clear();
+            work.clear();
             chance_infosets.iter_mut().for_each(ChanceRecurse::advance);
             for (reg, infos) in regs.iter_mut().zip(player_infosets.iter_mut()) {
                 *reg = infos.iter_mut().map(|info| info.advance(it, params)).sum();
